@@ -104,7 +104,7 @@ def detect_wt(d, ids):
         for pid in ids:
             r = sh(os.path.join(HERE, "vcheck"), pid, "--tier", os.environ.get("VERIF_TIER", "quick"),
                    env=dict(os.environ, VERIF_REPO=wt))
-            mech = [ln.strip()[:200] for ln in r.stdout.splitlines() if ln.strip().startswith("mechanism=")]
+            mech = [ln.strip()[:200] for ln in r.stdout.splitlines() if ln.strip().startswith(("mechanism=", "INCONCLUSIVE"))]
             out[pid] = r.returncode
             print(pid, {0: "MISSED", 1: "caught", 3: "inconclusive"}.get(r.returncode, "?"), mech[:2])
     finally:
